@@ -326,6 +326,22 @@ func Response(w *world.World, raws []json.RawMessage) ([]interface{}, error) {
 			"label": r.Label, "storeOps": storeOps, "serveOps": serveOps, "bodyLen": len(r.Body), "origLen": len(c.body),
 			"ceAgain": ce,
 		}
+		if (c.Path == "hit" || c.Path == "restore") && ce == "gzip" && len(serveOps) == 0 && bodyOk {
+			// the client was handed the gzip variant pike made when it stored the response: made with the best-compression
+			// profile it is not longer than what the reference encoder makes of the body at its highest level (2 % + 16 bytes
+			// of slack for another deflate implementation)
+			for _, op := range storeOps {
+				if op.Enc == "gzip" {
+					var buf bytes.Buffer
+					zw, _ := gzip.NewWriterLevel(&buf, gzip.BestCompression)
+					_, _ = zw.Write(c.body)
+					_ = zw.Close()
+					o["gzBest"] = len(r.Body) <= buf.Len()+buf.Len()/50+16
+					o["gzLens"] = []int{len(r.Body), buf.Len()}
+					break
+				}
+			}
+		}
 		if c.Path == "hit" || c.Path == "restore" {
 			// a client without Accept-Encoding is served from the same entry, then the same client asks again
 			w.DoCase("", c.Setting, "GET", "h", p.uri, hdr(""), c)
